@@ -87,5 +87,6 @@ class ServerRig:
         snap = {}
         for i in self.node.data_store.keys():
             for s in self.node.data_store[i].keys():
-                snap[(sx.concretize(i), sx.concretize(s))] = self.node.data_store[i][s]
+                # a copy: the snapshot must not change when the node's own object does
+                snap[(sx.concretize(i), sx.concretize(s))] = sx.mkbytes(list(sx.items(self.node.data_store[i][s])))
         return snap
